@@ -14,6 +14,7 @@ FORBIDDEN = re.compile(
     r"Unset\s+Universe\s+Checking|type-in-type|impredicative-set|native_compute)\b"
 )
 COMMENT = re.compile(r"\(\*.*?\*\)", re.S)
+STRING_LIT = re.compile(r'"(?:[^"]|"")*"', re.S)
 
 
 class Lock:
@@ -48,7 +49,7 @@ def forbidden_scan():
     """grep for forbidden vernacular outside comments; returns list of (file, token)."""
     bad = []
     for p in v_files():
-        src = COMMENT.sub(" ", open(p).read())
+        src = STRING_LIT.sub('""', COMMENT.sub(" ", STRING_LIT.sub('""', open(p).read())))
         for m in FORBIDDEN.finditer(src):
             bad.append((os.path.relpath(p, COQ), m.group(1)))
     return bad
